@@ -346,7 +346,9 @@ func main() {
 	}
 	dispTable("rankValues")
 	dispTable("compareValues")
-	if err := os.WriteFile(os.Args[2], []byte(b.String()), 0o644); err != nil {
+	if old, err := os.ReadFile(os.Args[2]); err == nil && string(old) == b.String() {
+		// unchanged: leave the file (and its time stamp) alone, so that nothing that depends on it is compiled again
+	} else if err := os.WriteFile(os.Args[2], []byte(b.String()), 0o644); err != nil {
 		fmt.Fprintln(os.Stderr, "gocollate:", err)
 		os.Exit(2)
 	}
